@@ -53,7 +53,9 @@ ASSUMPTIONS = [
     '"no real solution" is judged by the sign / domain criteria only (non-positive argument of log, negative ratio, '
     'arccosh argument < 1, exact zero divisor); log of an exactly vanishing ratio and arccosh arguments within 1e-3 of 1 are unjudged',
     'plateau by fit: weights 1/dvalue^2 use the errors that pyerrors\' own gamma_method assigned to the input slices (C02 is '
-    'checked separately); tolerance 1e-8 relative on value and fluctuations (Levenberg-Marquardt with ftol=xtol=gtol=1e-15 on a linear problem)',
+    'checked separately); value within 1e-6 * sigma_a * max(1, chi) of sum(w y)/sum(w) (sigma_a = 1/sqrt(sum w), chi = sqrt(chi^2); accuracy of '
+    'MINPACK lmdif with a forward-difference Jacobian, measured 1.4e-8 in these units), fluctuations (= gradient w_i/sum(w)) 1e-8 relative',
+    'measured head-room: every comparison of the quick tier still passes with all tolerances tightened by a factor 100',
     'all timeslices of a correlator share one layout (the Corr constructor rejects anything else)',
 ]
 
@@ -175,7 +177,7 @@ def _lcosh(x):
 
 
 def _lsinh(x):   # x > 0
-    return x + math.log1p(-math.exp(-2 * x)) - math.log(2)
+    return x + math.log(-math.expm1(-2 * x)) - math.log(2)
 
 
 def root_ratio_slope(kind, m, t, T):
@@ -217,7 +219,13 @@ def root_ref(kind, d, t, T):
         hi *= 2
         if hi > 1e3:
             return ('unjudged', 'root too large')
-    m = brentq(lambda z: lr(z) - ld, 1e-12, hi, xtol=1e-300, rtol=1e-15, maxiter=500)
+    lo = 1e-4
+    if (lr(lo) - ld) * sg >= 0:
+        return ('unjudged', 'ill-conditioned root')      # root below 1e-4: the ratio is at its m -> 0 limit
+    try:
+        m = brentq(lambda z: lr(z) - ld, lo, hi, xtol=1e-300, rtol=1e-15, maxiter=500)
+    except (ValueError, RuntimeError):
+        return ('unjudged', 'reference solve failed')
     if not (m >= 1e-3 and m * max(a, b) <= 50):
         return ('unjudged', 'ill-conditioned root')
     return ('val', m, 1.0 / (d * root_ratio_slope(kind, m, t, T)))
@@ -351,16 +359,18 @@ def layout(draw, tier, analysable=False):
 
 @st.composite
 def undefined_set(draw, T):
-    k = draw(st.sampled_from([0, 1, 1, 1, 2, 2, 3, 4, -1]))
+    """0..T-1 undefined timeslices at arbitrary positions; mostly few (so that outputs remain), sometimes most of them."""
+    k = draw(st.sampled_from([0, 0, 0, 1, 1, 1, 1, 1, 1, 2, 2, 2, 2, 2, 3, 3, 3, 4, 5, -1]))
     if k < 0:
         k = draw(st.integers(T // 2, T - 1))
-    k = min(k, T - 1)
+    else:
+        k = min(k, max(1, T // 3))
     return sorted(draw(st.lists(st.integers(0, T - 1), min_size=k, max_size=k, unique=True)))
 
 
 @st.composite
 def corr_spec(draw, tier, shapes=SHAPES, rel=None, zeros=True, with_cov=True, analysable=False):
-    T = draw(st.one_of(st.integers(4, 9), st.integers(4, 24)))
+    T = draw(st.one_of(st.integers(4, 8), st.integers(4, 24), st.integers(9, 24)))
     chains = draw(layout(tier, analysable))
     shape = draw(st.sampled_from(list(shapes)))
     means = draw(shape_means(shape, T))
@@ -369,9 +379,9 @@ def corr_spec(draw, tier, shapes=SHAPES, rel=None, zeros=True, with_cov=True, an
     sig = [r * max(abs(x), 1e-2 * top) for x in means]
     spec = {'T': T, 'und': draw(undefined_set(T)), 'chains': chains, 'shape': shape, 'means': means, 'sig': sig,
             'seed': draw(st.integers(0, 2 ** 31 - 1))}
-    if zeros and draw(st.integers(0, 11)) == 0:
+    if zeros and draw(st.integers(0, 11)) == 7:
         spec['zero'] = sorted(draw(st.lists(st.integers(0, T - 1), min_size=1, max_size=2, unique=True)))
-    if with_cov and draw(st.integers(0, 4)) == 0:
+    if with_cov and draw(st.integers(0, 4)) == 3:
         cg = draw(st.sampled_from([0.02, 0.1, 0.5]))
         spec['cov'] = {'name': draw(st.sampled_from(gen.COVNAMES)), 'var': draw(st.sampled_from([0.04, 1.0, 2.25])),
                        'grads': [cg * x * (1.0 + 0.25 * ((t * 7) % 4)) for t, x in enumerate(means)]}
@@ -509,6 +519,9 @@ def closed_case(draw, tier, method):
     spec = draw(corr_spec(tier))
     spec['variant'] = draw(st.sampled_from(VARIANTS[method]))
     spec['call'] = draw(st.sampled_from(['kw', 'pos', 'default'])) if spec['variant'] == DEFAULT_VARIANT[method] else draw(st.sampled_from(['kw', 'pos']))
+    if (spec['variant'] == 'log' or method == 'm_eff') and not spec.get('zero') and draw(st.integers(0, 3)) == 2:
+        # the boundary of "no real value": an exactly vanishing timeslice among the defined ones
+        spec['zero'] = [draw(st.sampled_from([t for t in range(spec['T']) if t not in spec['und']]))]
     if method == 'second_deriv' and spec['variant'] in ('symmetric', 'big_symmetric', 'log') and findings.is_open(FINDING_CENTRAL):
         # known finding: keep "central slice unusable between two usable ones" out of the search by making the
         # right neighbour undefined as well (never creates a new trigger, never removes the last defined slice)
@@ -615,8 +628,13 @@ def root_oracle(spec):
 def plateau_case(draw, tier):
     spec = draw(corr_spec(tier, shapes=['plateau', 'plateau', 'exp', 'rand', 'cosh'], rel=st.sampled_from([1e-3, 1e-2, 0.05, 0.3]), zeros=False, analysable=True))
     T = spec['T']
-    a = draw(st.integers(0, T - 1))
-    b = draw(st.integers(a, T - 1))
+    mode = draw(st.integers(0, 7))
+    if mode == 4:
+        a = b = draw(st.integers(0, T - 1))
+    elif mode == 5:
+        a, b = 0, T - 1
+    else:
+        a, b = sorted(draw(st.lists(st.integers(0, T - 1), min_size=2, max_size=2, unique=True)))
     spec['range'] = [a, b]
     spec['method'] = draw(st.sampled_from(['fit', 'fit', 'fit', 'avg', 'average', 'mean']))
     spec['via'] = draw(st.sampled_from(['arg', 'arg', 'set_prange', 'ctor_prange']))
@@ -643,7 +661,7 @@ def plateau_oracle(spec):
             kw['auto_gamma'] = True
         else:
             corr.gamma_method()
-    what = 'plateau(%s, method=%r)' % ([a, b] if via == 'arg' else 'prange=%r' % [a, b], method)
+    what = 'plateau(%s, method=%r)' % ([a, b] if via == 'arg' else 'prange=%r' % ([a, b],), method)
     buf = io.StringIO()
     try:
         with contextlib.redirect_stdout(buf):
@@ -666,8 +684,16 @@ def plateau_oracle(spec):
                     raise Skip('vanishing error of an input slice')
                 w = [1.0 / x ** 2 for x in dv]
                 sw = math.fsum(w)
-                rf = combine(lambda v: math.fsum(wi * vi for wi, vi in zip(w, v)) / sw, [wi / sw for wi in w], ops)
-                cmp_obs(rf, res, what + ' vs sum(w y)/sum(w), w=1/dy^2, over timeslices %r' % idx, rtol=1e-8, vtol=1e-8, atol_scale=1e-10, check_rv=False)
+                want = math.fsum(wi * o.value for wi, o in zip(w, ops)) / sw
+                # accuracy of the minimiser (MINPACK lmdif with a forward-difference Jacobian, relative step 1.5e-8):
+                # measured |got - want| <= 1.4e-8 * sigma_a * max(1, chi) over 350 cases; allowed 1e-6 (plus rounding)
+                sig_a = 1.0 / math.sqrt(sw)
+                chi = math.sqrt(math.fsum(wi * (o.value - want) ** 2 for wi, o in zip(w, ops)))
+                require(isinstance(res, pe.Obs), what + ' did not return an Obs', type(res).__name__)
+                require(abs(float(res.value) - want) <= 1e-6 * sig_a * max(1.0, chi) + 1e-11 * abs(want),
+                        what + ': value differs from sum(w y)/sum(w), w=1/dy^2, over timeslices %r' % idx, float(res.value), want, sig_a, chi)
+                rf = combine(lambda v: float(res.value), [wi / sw for wi in w], ops)
+                cmp_obs(rf, res, what + ' vs sum(w y)/sum(w), w=1/dy^2, over timeslices %r' % idx, rtol=1e-8, atol_scale=1e-10, check_rv=False)
             else:
                 rf = combine(lambda v: math.fsum(v) / n, [1.0 / n] * n, ops)
                 cmp_obs(rf, res, what + ' vs arithmetic mean over timeslices %r' % idx)
@@ -691,14 +717,14 @@ def _closed(method):
 
 
 SUBS = [
-    Sub('deriv', _closed('deriv'), closed_oracle('deriv'), {'quick': 200, 'thorough': 4000}, {'quick': 3, 'thorough': 16},
+    Sub('deriv', _closed('deriv'), closed_oracle('deriv'), {'quick': 450, 'thorough': 4000}, {'quick': 3, 'thorough': 16},
         doc='deriv: symmetric, forward, backward, improved, log vs finite-difference formulas through RefObs.combine'),
-    Sub('second_deriv', _closed('second_deriv'), closed_oracle('second_deriv'), {'quick': 200, 'thorough': 4000}, {'quick': 3, 'thorough': 16},
+    Sub('second_deriv', _closed('second_deriv'), closed_oracle('second_deriv'), {'quick': 450, 'thorough': 4000}, {'quick': 3, 'thorough': 16},
         doc='second_deriv: symmetric, big_symmetric, improved, log'),
-    Sub('m_eff', _closed('m_eff'), closed_oracle('m_eff'), {'quick': 200, 'thorough': 4000}, {'quick': 3, 'thorough': 16},
+    Sub('m_eff', _closed('m_eff'), closed_oracle('m_eff'), {'quick': 450, 'thorough': 4000}, {'quick': 3, 'thorough': 16},
         doc='m_eff: log, logsym, arccosh'),
-    Sub('m_eff_root', root_case, root_oracle, {'quick': 150, 'thorough': 3000}, {'quick': 4, 'thorough': 16},
+    Sub('m_eff_root', root_case, root_oracle, {'quick': 350, 'thorough': 3000}, {'quick': 4, 'thorough': 16},
         doc='m_eff: cosh, periodic, sinh vs bracketing solve + implicit derivative', max_skip_frac=0.3),
-    Sub('plateau', plateau_case, plateau_oracle, {'quick': 150, 'thorough': 3000}, {'quick': 3, 'thorough': 16},
+    Sub('plateau', plateau_case, plateau_oracle, {'quick': 350, 'thorough': 3000}, {'quick': 3, 'thorough': 16},
         doc='plateau by fit (weighted mean) and by average over any inclusive range'),
 ]
